@@ -28,5 +28,9 @@ b:
   br label %b
 }
 
+@ba0 = global i8* blockaddress(@g, %b)
+@ba1 = global i8* blockaddress(@g, %b)
+
 uselistorder i32* @a, { 2, 0, 1 }
-uselistorder_bb @g, %b, { 1, 0 }
+uselistorder i8* blockaddress(@g, %b), { 1, 0 }
+uselistorder_bb @g, %b, { 2, 0, 1 }
